@@ -231,7 +231,9 @@ func NPM(t *kernel.Tape, k Knobs) *uni.Spec {
 			if len(tags) > 0 {
 				v.Attrs = append(v.Attrs, kv(int(version.Tags), strings.Join(tags, ",")))
 			}
-			if t.Bool(1, 8) {
+			// deprecated versions; the one tagged latest more often than the
+			// others (a deprecated latest is where the tag changes the pick)
+			if (vi == latest && t.Bool(1, 3)) || (vi != latest && t.Bool(1, 8)) {
 				v.Attrs = append(v.Attrs, kv(int(version.Blocked), ""))
 			}
 			nr := t.Range(0, k.MaxReqs)
